@@ -418,7 +418,7 @@ Lemma headers_iter_frame : forall s sc s' r, headers_iter s sc = (s', r) ->
 Proof.
   intros s sc s' r Heq. unfold headers_iter in Heq.
   destruct (t_wh s =? t_height s); [inversion Heq; now subst|].
-  destruct (get_pending (t_wh s) (t_height s)) as [[|x l]|]; try (inversion Heq; now subst).
+  destruct (get_pending (t_wh s) (t_height s)) as [[|x l]|]; [inversion Heq; now subst | | inversion Heq; now subst].
   destruct (submit_loop max_attempts (x :: l) sc (t_wh s, t_ph s)) as [[[cs acc] e] [w p]].
   inversion Heq; subst. cbn. auto.
 Qed.
@@ -428,8 +428,8 @@ Lemma data_iter_frame : forall s sc s' r, data_iter s sc = (s', r) ->
 Proof.
   intros s sc s' r Heq. unfold data_iter in Heq.
   destruct (t_wd s =? t_height s); [inversion Heq; now subst|].
-  destruct (get_pending (t_wd s) (t_height s)) as [pending|]; try (inversion Heq; now subst).
-  destruct (filter (nonempty s) pending) as [|x l]; try (inversion Heq; now subst).
+  destruct (get_pending (t_wd s) (t_height s)) as [pending|]; [|inversion Heq; now subst].
+  destruct (filter (nonempty s) pending) as [|x l]; [inversion Heq; now subst|].
   destruct (submit_loop max_attempts (x :: l) sc (t_wd s, t_pd s)) as [[[cs acc] e] [w p]].
   inversion Heq; subst. cbn. auto.
 Qed.
@@ -576,4 +576,56 @@ Proof.
   rewrite (submit_loop_accepting n) by assumption.
   pose proof (submit_loop_accepting 0 max_attempts rem r wp ltac:(unfold max_attempts; lia) Hne) as H0.
   cbn [repeat app] in H0. rewrite H0. auto.
+Qed.
+
+(* ---- the statements of Props/C08.v ------------------------------------------------------------------------ *)
+Lemma c08_refusal_justified : forall (c : cfg) (hist : list item) (ne : bool), 1 <= c_init c ->
+  let s := final c hist in
+  t_height (produce c s ne) <> t_height s + 1 ->
+  t_height (produce c s ne) = t_height s /\ c_limit c <> 0 /\ c_limit c <= num_waiting_blocks c s.
+Proof.
+  intros c hist ne Hi s Hn. destruct (refused c s) eqn:Hr.
+  - split; [now apply refused_keeps_height|]. split.
+    + intro E. unfold refused, limit_check in Hr. rewrite E in Hr. discriminate.
+    + apply refusal_justified; [assumption | now apply final_inv | assumption].
+  - exfalso. apply Hn. now apply not_refused_produces.
+Qed.
+
+Lemma c08_resumes : forall (c : cfg) (hist : list item) (hfirst : bool) (sh sd : list outcome) (ne : bool),
+  1 <= c_init c -> eventually_accepts sh -> eventually_accepts sd ->
+  let s := final c (hist ++ sub_round hfirst sh sd) in
+  num_waiting_blocks c s = 0 /\ t_height (produce c s ne) = t_height s + 1.
+Proof.
+  intros c hist hfirst sh sd ne Hi Hsh Hsd s. subst s. rewrite final_app.
+  destruct (sub_round_settles c (final c hist) hfirst sh sd Hi (final_inv c hist Hi) Hsh Hsd) as [I1 [E1 Z1]].
+  split; [assumption|]. apply not_refused_produces. apply settled_not_refused; try assumption.
+  destruct (N.eq_dec (c_limit c) 0); [now right | left; lia].
+Qed.
+
+Lemma c08_resumes_when_accepted : forall (c : cfg) (hist : list item) (ne : bool), 1 <= c_init c ->
+  let s := final c hist in
+  num_waiting_blocks c s < c_limit c -> t_height (produce c s ne) = t_height s + 1.
+Proof.
+  intros c hist ne Hi s Hlt. apply not_refused_produces. apply settled_not_refused; [assumption | now apply final_inv | now left].
+Qed.
+
+Lemma c08_no_deadlock : forall (c : cfg) (hist : list item) (rs : list round), 1 <= c_init c ->
+  Forall round_ok rs ->
+  t_height (final c (hist ++ flat_map round_items rs)) = t_height (final c hist) + N.of_nat (length rs).
+Proof.
+  intros c hist rs Hi Hok. rewrite final_app. apply rounds_progress; [assumption | now apply final_inv | assumption].
+Qed.
+
+Lemma c08_limit_enforced : forall (c : cfg) (hist : list item) (h : N), 1 <= c_init c -> c_limit c <> 0 ->
+  let s := final c hist in
+  c_init c <= h <= t_height s -> ~ In h (t_dah s) -> t_height s < h + c_limit c.
+Proof. intros c hist h Hi HL s Hh Hn. eapply limit_enforced; try eassumption. now apply final_inv. Qed.
+
+Lemma c08_no_wrap : forall (c : cfg) (hist : list item), 1 <= c_init c ->
+  let s := final c hist in
+  c_init c - 1 <= t_wh s <= t_height s /\ c_init c - 1 <= t_wd s <= t_height s /\
+  sub64 (t_height s) (t_wh s) = t_height s - t_wh s /\ sub64 (t_height s) (t_wd s) = t_height s - t_wd s.
+Proof.
+  intros c hist Hi s. destruct (final_inv c hist Hi). fold s in i_hlo0, i_hhi0, i_dlo0, i_dhi0.
+  repeat split; try assumption; now apply sub64_le.
 Qed.
